@@ -19,14 +19,30 @@ theorem findIter_mem {l : List Iter} {id : Nat} {it : Iter} (h : findIter l id =
   unfold findIter at h
   exact List.mem_of_find?_eq_some h
 
+/-- liveness of an iterator kind depends on these fields only -/
+theorem live_congr {s s' : ApiState} (k : IterKind) (e3 : s'.search = s.search) (e6 : s'.dag = s.dag)
+    (e8 : s'.align = s.align) (e14 : s'.dagId = s.dagId) (e13 : ∀ j, j ∈ s.alns → j ∈ s'.alns)
+    (e15 : ∀ o, holds s.lats o = true → holds s'.lats o = true) (hl : live s k) : live s' k := by
+  cases k <;> simp only [live, e3, e6, e8, e14] at hl ⊢
+  · exact hl
+  · exact hl
+  · exact hl
+  · exact hl
+  · exact e13 _ hl
+  · rcases hl with h1 | h1
+    · exact .inl h1
+    · exact .inr (e15 _ h1)
+  · rcases hl with h1 | h1
+    · exact .inl h1
+    · exact .inr (e15 _ h1)
+
 /-- a state that differs only in `iters`, every valid new iterator being an old valid one -/
 theorem WF.of_iters_sub {s : ApiState} (h : WF s) (l : List Iter)
     (hsub : ∀ it ∈ l, it.valid = true → it ∈ s.iters) : WF { s with iters := l } :=
   { dead := h.dead, noSearch := h.noSearch, activeIff := h.activeIff, inUtt := h.inUtt,
     dagFresh := h.dagFresh, alFresh := h.alFresh,
-    iters := fun it hm hv => by
-      have := h.iters it (hsub it hm hv) hv
-      cases hk : it.kind <;> simp only [hk, live] at this ⊢ <;> exact this }
+    iters := fun it hm hv =>
+      live_congr it.kind rfl rfl rfl rfl (fun _ x => x) (fun _ x => x) (h.iters it (hsub it hm hv) hv) }
 
 theorem WF.remove {s : ApiState} (h : WF s) (id : Nat) : WF { s with iters := removeIter s.iters id } :=
   h.of_iters_sub _ fun _ hm _ => mem_removeIter hm
@@ -37,9 +53,34 @@ theorem WF.cons {s : ApiState} (h : WF s) (it : Iter) (hl : live s it.kind) :
     dagFresh := h.dagFresh, alFresh := h.alFresh,
     iters := fun it' hm hv => by
       rcases List.mem_cons.mp hm with rfl | hm
-      · cases hk : it'.kind <;> simp only [hk, live] at hl ⊢ <;> exact hl
-      · have := h.iters it' hm hv
-        cases hk : it'.kind <;> simp only [hk, live] at this ⊢ <;> exact this }
+      · exact live_congr it'.kind rfl rfl rfl rfl (fun _ x => x) (fun _ x => x) hl
+      · exact live_congr it'.kind rfl rfl rfl rfl (fun _ x => x) (fun _ x => x) (h.iters it' hm hv) }
+
+theorem iters_of_invalidate {s s' : ApiState} (h : WF s) {p : IterKind → Bool}
+    (hit : s'.iters = invalidate p s.iters)
+    (hpres : ∀ k, p k = false → live s k → live s' k) :
+    ∀ it ∈ s'.iters, it.valid = true → live s' it.kind := by
+  intro it hm hv
+  rw [hit] at hm
+  obtain ⟨hm', hp⟩ := invalidate_valid hm hv
+  exact hpres _ hp (h.iters it hm' hv)
+
+/-- a state that differs from a well-formed one only in fields `WF` does not mention -/
+theorem WF.congr {s s' : ApiState} (h : WF s)
+    (e1 : s'.refs = s.refs) (e2 : s'.utt = s.utt) (e3 : s'.search = s.search) (e4 : s'.mllr = s.mllr)
+    (e5 : s'.logfh = s.logfh) (e6 : s'.dag = s.dag) (e7 : s'.dagFresh = s.dagFresh) (e8 : s'.align = s.align)
+    (e9 : s'.alFresh = s.alFresh) (e10 : s'.json = s.json) (e11 : s'.active = s.active)
+    (e12 : s'.iters = s.iters) (e13 : ∀ k, k ∈ s.alns → k ∈ s'.alns) (e14 : s'.dagId = s.dagId)
+    (e15 : ∀ o, holds s.lats o = true → holds s'.lats o = true) : WF s' :=
+  { dead := by rw [e1, e2, e3, e4, e5, e8, e10]; exact h.dead
+    noSearch := by rw [e2, e3, e6]; exact h.noSearch
+    activeIff := by rw [e2, e11]; exact h.activeIff
+    inUtt := by rw [e2, e3]; exact h.inUtt
+    dagFresh := by rw [e6, e7]; exact h.dagFresh
+    alFresh := by rw [e8, e9]; exact h.alFresh
+    iters := by
+      rw [e12]; intro it hm hv
+      exact live_congr it.kind e3 e6 e8 e14 e13 e15 (h.iters it hm hv) }
 
 /-! ### lattice sub-step -/
 
@@ -55,10 +96,13 @@ theorem latticeStep_wf {s : ApiState} (h : WF s) (e : Bool) : WF (latticeStep s 
       · exact h.dead
       · intro hn; exact absurd hn hs
       · intro hf; exact hf
-      · intro it hm hv
-        obtain ⟨hm', hp⟩ := invalidate_valid hm hv
-        have := h.iters it hm' hv
-        cases hk : it.kind <;> simp only [hk, live, isDagKind] at this hp ⊢ <;> first | exact this | cases hp
+      · refine iters_of_invalidate h (p := dagDrop s.dagId s.lats) rfl ?_
+        intro k hp hl
+        cases k <;> simp_all [live, dagDrop]
+        all_goals
+          rcases hl with ⟨_, h2⟩ | h2
+          · subst h2; first | exact hp rfl | exact .inr (hp rfl)
+          · first | exact h2 | exact .inr h2
 
 theorem latticeStep_ok {s : ApiState} (e : Bool) (hr : (latticeStep s e).2 = true) :
     (latticeStep s e).1.dag = true := by
@@ -79,6 +123,32 @@ theorem latticeStep_same (s : ApiState) (e : Bool) :
   · simp
   · split <;> simp
 
+/-- the lattice a `lattice_*` call works on -/
+theorem latOf_wf {s : ApiState} (h : WF s) (src : LatSrc) (e : Bool) : WF (latOf s src e).1 := by
+  cases src with
+  | dec => exact latticeStep_wf h e
+  | user k => exact h
+
+theorem holds_of_latObj {lats : List (Nat × Nat)} {k o : Nat} (h : latObj lats k = some o) : holds lats o = true := by
+  simp only [latObj, Option.map_eq_some_iff] at h
+  obtain ⟨p, hp, hpo⟩ := h
+  simp only [holds, List.any_eq_true]
+  exact ⟨p, List.mem_of_find?_eq_some hp, by simp [hpo]⟩
+
+/-- the object a `lattice_*` call got is alive in the state after the call -/
+theorem latOf_live {s : ApiState} (src : LatSrc) (e : Bool) {o : Nat} (ho : (latOf s src e).2 = some o) :
+    live (latOf s src e).1 (.latN o) := by
+  cases src with
+  | dec =>
+    simp only [latOf] at ho ⊢
+    by_cases hr : (latticeStep s e).2 = true
+    · simp only [hr, if_true, Option.some.injEq] at ho
+      exact .inl ⟨latticeStep_ok e hr, ho⟩
+    · simp [hr] at ho
+  | user k =>
+    simp only [latOf] at ho ⊢
+    exact .inr (holds_of_latObj ho)
+
 /-! ### alignment sub-step -/
 
 theorem alignStep_wf {s : ApiState} (h : WF s) (ru r a : Bool) : WF (alignStep s ru r a).1 := by
@@ -95,10 +165,9 @@ theorem alignStep_wf {s : ApiState} (h : WF s) (ru r a : Bool) : WF (alignStep s
         have := (h.dead h0).1
         rw [hs'] at this; cases this
       · intro hf; exact hf
-      · intro it hm hv
-        obtain ⟨hm', hp⟩ := invalidate_valid hm hv
-        have := h.iters it hm' hv
-        cases hk : it.kind <;> simp only [hk, live, isAliD] at this hp ⊢ <;> first | exact this | cases hp
+      · refine iters_of_invalidate h (p := isAliD) rfl ?_
+        intro k hp hl
+        cases k <;> simp_all [live, isAliD]
 
 theorem alignStep_ok {s : ApiState} (ru r a : Bool) (hr : (alignStep s ru r a).2 = true) :
     (alignStep s ru r a).1.align = true := by
@@ -121,47 +190,22 @@ theorem alignStep_same (s : ApiState) (ru r a : Bool) :
 
 /-! ### per-call preservation of `WF` -/
 
-
-theorem iters_of_invalidate {s s' : ApiState} (h : WF s) {p : IterKind → Bool}
-    (hit : s'.iters = invalidate p s.iters)
-    (hpres : ∀ k, p k = false → live s k → live s' k) :
-    ∀ it ∈ s'.iters, it.valid = true → live s' it.kind := by
-  intro it hm hv
-  rw [hit] at hm
-  obtain ⟨hm', hp⟩ := invalidate_valid hm hv
-  exact hpres _ hp (h.iters it hm' hv)
-
-/-- a state that differs from a well-formed one only in fields `WF` does not mention -/
-theorem WF.congr {s s' : ApiState} (h : WF s)
-    (e1 : s'.refs = s.refs) (e2 : s'.utt = s.utt) (e3 : s'.search = s.search) (e4 : s'.cfgJsgf = s.cfgJsgf)
-    (e5 : s'.cfgFsg = s.cfgFsg) (e6 : s'.dag = s.dag) (e7 : s'.dagFresh = s.dagFresh) (e8 : s'.align = s.align)
-    (e9 : s'.alFresh = s.alFresh) (e10 : s'.json = s.json) (e11 : s'.active = s.active)
-    (e12 : s'.iters = s.iters) (e13 : ∀ k, k ∈ s.alns → k ∈ s'.alns) : WF s' :=
-  { dead := by rw [e1, e2, e3, e4, e5, e8, e10]; exact h.dead
-    noSearch := by rw [e2, e3, e6]; exact h.noSearch
-    activeIff := by rw [e2, e11]; exact h.activeIff
-    inUtt := by rw [e2, e3]; exact h.inUtt
-    dagFresh := by rw [e6, e7]; exact h.dagFresh
-    alFresh := by rw [e8, e9]; exact h.alFresh
-    iters := by
-      rw [e12]; intro it hm hv
-      have := h.iters it hm hv
-      cases hk : it.kind <;> simp only [hk, live, e3, e6, e8] at this ⊢ <;> first | exact this | exact e13 _ this }
-
 theorem wf_simple (s : ApiState) (h : WF s) (c : Call)
-    (hc : c = .freeNull ∨ (∃ k, c = .cfgOther k) ∨ (∃ e, c = .hyp e) ∨ c = .prob ∨ c = .nframes ∨ c = .times
-          ∨ c = .getCmn ∨ c = .setCmn ∨ (∃ f, c = .lookup f) ∨ (∃ k, c = .latWalk k)) : WF (step s c).1 := by
-  rcases hc with rfl | ⟨k, rfl⟩ | ⟨e, rfl⟩ | rfl | rfl | rfl | rfl | rfl | ⟨f, rfl⟩ | ⟨k, rfl⟩ <;>
+    (hc : c = .freeNull ∨ c = .touch ∨ (∃ e, c = .hyp e) ∨ c = .prob ∨ c = .nframes ∨ c = .times
+          ∨ c = .getCmn ∨ c = .setCmn ∨ (∃ f, c = .lookup f) ∨ (∃ k, c = .latWalk k) ∨ c = .reinitFeat) :
+    WF (step s c).1 := by
+  rcases hc with rfl | rfl | ⟨e, rfl⟩ | rfl | rfl | rfl | rfl | rfl | ⟨f, rfl⟩ | ⟨k, rfl⟩ | rfl <;>
     simp only [step] <;> (repeat' split) <;> exact h
 
 theorem wf_removers (s : ApiState) (h : WF s) (c : Call)
     (hc : (∃ i, c = .segFree i) ∨ (∃ i, c = .hypFree i) ∨ (∃ i, c = .aliFree i) ∨ (∃ i l, c = .segNext i l)
-          ∨ (∃ i l, c = .hypNext i l) ∨ (∃ i l, c = .aliNext i l) ∨ (∃ i g, c = .aliGoto i g)) :
+          ∨ (∃ i l, c = .hypNext i l) ∨ (∃ i l, c = .aliNext i l) ∨ (∃ i g, c = .aliGoto i g)
+          ∨ (∃ i, c = .lnodeFree i) ∨ (∃ i, c = .llinkFree i) ∨ (∃ i l, c = .lnodeNext i l)
+          ∨ (∃ i l, c = .llinkNext i l)) :
     WF (step s c).1 := by
-  rcases hc with ⟨i, rfl⟩ | ⟨i, rfl⟩ | ⟨i, rfl⟩ | ⟨i, l, rfl⟩ | ⟨i, l, rfl⟩ | ⟨i, l, rfl⟩ | ⟨i, l, rfl⟩ <;>
+  rcases hc with ⟨i, rfl⟩ | ⟨i, rfl⟩ | ⟨i, rfl⟩ | ⟨i, l, rfl⟩ | ⟨i, l, rfl⟩ | ⟨i, l, rfl⟩ | ⟨i, l, rfl⟩
+      | ⟨i, rfl⟩ | ⟨i, rfl⟩ | ⟨i, l, rfl⟩ | ⟨i, l, rfl⟩ <;>
     simp only [step] <;> (repeat' split) <;> first | exact h | exact h.remove _
-
-
 
 theorem wf_start (s : ApiState) (h : WF s) : WF (step s .start).1 := by
   simp only [step]
@@ -179,9 +223,13 @@ theorem wf_start (s : ApiState) (h : WF s) : WF (step s .start).1 := by
         · intro _; rfl
         · intro hf; cases hf
         · intro hf; cases hf
-        · refine iters_of_invalidate h (p := fun k => isResultKind k || isAliD k) rfl ?_
+        · refine iters_of_invalidate h (p := fun k => resultDrop s.dagId s.lats k || isAliD k) rfl ?_
           intro k hp hl
-          cases k <;> simp_all [live, isResultKind, isAliD]
+          cases k <;> simp_all [live, resultDrop, dagDrop, isSegS, isAliD]
+          all_goals
+            rcases hl with ⟨_, h2⟩ | h2
+            · subst h2; first | exact hp rfl | exact .inr (hp rfl)
+            · first | exact h2 | exact .inr h2
 
 theorem wf_free (s : ApiState) (h : WF s) : WF (step s .free).1 := by
   simp only [step]
@@ -190,9 +238,13 @@ theorem wf_free (s : ApiState) (h : WF s) : WF (step s .free).1 := by
   · split
     · refine { dead := ?_, noSearch := ?_, activeIff := ?_, inUtt := ?_, dagFresh := ?_, alFresh := ?_, iters := ?_ }
       all_goals try (simp [dropDecoderOwned]; done)
-      refine iters_of_invalidate h (p := isDecoderKind) rfl ?_
+      refine iters_of_invalidate h (p := decoderDrop s.dagId s.lats) rfl ?_
       intro k hp hl
-      cases k <;> simp_all [live, isDecoderKind, dropDecoderOwned]
+      cases k <;> simp_all [live, decoderDrop, dagDrop, dropDecoderOwned]
+      all_goals
+        rcases hl with ⟨_, h2⟩ | h2
+        · subst h2; first | exact hp rfl | exact .inr (hp rfl)
+        · first | exact h2 | exact .inr h2
     · rename_i h0 h1
       exact { dead := fun hr => by simp at hr; omega, noSearch := h.noSearch, activeIff := h.activeIff, inUtt := h.inUtt,
               dagFresh := h.dagFresh, alFresh := h.alFresh, iters := h.iters }
@@ -228,10 +280,40 @@ theorem wf_aliChild (s : ApiState) (h : WF s) (d i : Nat) (e : Bool) : WF (step 
     · exact h
   · exact h
 
+theorem wf_llink (s : ApiState) (h : WF s) (d i : Nat) (e : Bool) : WF (step s (.llink d i e)).1 := by
+  simp only [step]
+  split
+  · rename_i it hf _
+    split
+    · rename_i o hk
+      split
+      · rename_i hv
+        split
+        · refine h.cons _ ?_
+          have := h.iters it (findIter_mem hf) hv
+          rw [hk] at this
+          exact this
+        · exact h
+      · exact h
+    · exact h
+  · exact h
+
 theorem wf_latFree (s : ApiState) (h : WF s) (k : Nat) : WF (step s (.latFree k)).1 := by
   simp only [step]
   split
-  · exact h.congr rfl rfl rfl rfl rfl rfl rfl rfl rfl rfl rfl rfl (fun _ hk => hk)
+  · refine { dead := h.dead, noSearch := h.noSearch, activeIff := h.activeIff, inUtt := h.inUtt,
+             dagFresh := h.dagFresh, alFresh := h.alFresh, iters := ?_ }
+    refine iters_of_invalidate h (p := unheld s.dag s.dagId (s.lats.filter (·.1 != k))) rfl ?_
+    intro j hp hl
+    cases j <;> simp_all [live, unheld]
+    all_goals
+      rename_i o
+      by_cases hc : s.dag = true ∧ s.dagId = o
+      · exact .inl hc
+      · refine .inr (hp ?_)
+        by_cases hd : s.dag = true
+        · exact .inr fun he => hc ⟨hd, he⟩
+        · exact .inl (by simpa using hd)
   · exact h
 
 theorem wf_alFree (s : ApiState) (h : WF s) (k : Nat) : WF (step s (.alFree k)).1 := by
@@ -261,15 +343,28 @@ theorem wf_retain (s : ApiState) (h : WF s) : WF (step s .retain).1 := by
   · exact { dead := fun hr => by simp at hr, noSearch := h.noSearch, activeIff := h.activeIff, inUtt := h.inUtt,
             dagFresh := h.dagFresh, alFresh := h.alFresh, iters := h.iters }
 
-theorem wf_cfgGram (s : ApiState) (h : WF s) (j : Bool) (g : Gram) : WF (step s (.cfgGram j g)).1 := by
+/-- changing `mllr` / `logfh` / `json` of a live decoder -/
+theorem WF.setFlags {s : ApiState} (h : WF s) (h0 : s.refs ≠ 0) (m l j : Bool) :
+    WF { s with mllr := m, logfh := l, json := j } :=
+  { dead := fun hr => absurd hr h0, noSearch := h.noSearch, activeIff := h.activeIff, inUtt := h.inUtt,
+    dagFresh := h.dagFresh, alFresh := h.alFresh,
+    iters := fun it hm hv => live_congr it.kind rfl rfl rfl rfl (fun _ x => x) (fun _ x => x) (h.iters it hm hv) }
+
+theorem wf_logfile (s : ApiState) (h : WF s) (a : LogArg) : WF (step s (.logfile a)).1 := by
   simp only [step]
   split
   · exact h
   · rename_i h0
-    unfold setCfg
-    split <;>
-    exact { dead := fun hr => absurd hr h0, noSearch := h.noSearch, activeIff := h.activeIff, inUtt := h.inUtt,
-            dagFresh := h.dagFresh, alFresh := h.alFresh, iters := h.iters }
+    cases a
+    · exact h.setFlags h0 s.mllr false s.json
+    · exact h.setFlags h0 s.mllr true s.json
+    · exact h
+
+theorem wf_mllrApply (s : ApiState) (h : WF s) (g : Bool) : WF (step s (.mllrApply g)).1 := by
+  simp only [step]
+  (repeat' split) <;> first
+    | exact h
+    | (rename_i h0 _ _; exact h.setFlags h0 true s.logfh s.json)
 
 theorem wf_proc (s : ApiState) (h : WF s) (f a : Bool) : WF (step s (.proc f a)).1 := by
   simp only [step]
@@ -277,7 +372,9 @@ theorem wf_proc (s : ApiState) (h : WF s) (f a : Bool) : WF (step s (.proc f a))
     | exact h
     | exact { dead := h.dead, noSearch := h.noSearch, activeIff := h.activeIff, inUtt := h.inUtt,
               dagFresh := fun hf => h.dagFresh (by simp at hf; exact hf.1),
-              alFresh := fun hf => h.alFresh (by simp at hf; exact hf.1), iters := h.iters }
+              alFresh := fun hf => h.alFresh (by simp at hf; exact hf.1),
+              iters := fun it hm hv =>
+                live_congr it.kind rfl rfl rfl rfl (fun _ x => x) (fun _ x => x) (h.iters it hm hv) }
 
 theorem wf_endUtt (s : ApiState) (h : WF s) (a : Bool) : WF (step s (.endUtt a)).1 := by
   simp only [step]
@@ -287,7 +384,9 @@ theorem wf_endUtt (s : ApiState) (h : WF s) (a : Bool) : WF (step s (.endUtt a))
        exact { dead := fun hr => absurd hr h0, noSearch := fun hn => absurd hn hs,
                activeIff := by simp, inUtt := fun hx => (by cases hx),
                dagFresh := fun hf => h.dagFresh (by simp at hf; exact hf.1),
-               alFresh := fun hf => h.alFresh (by simp at hf; exact hf.1), iters := h.iters })
+               alFresh := fun hf => h.alFresh (by simp at hf; exact hf.1),
+               iters := fun it hm hv =>
+                 live_congr it.kind rfl rfl rfl rfl (fun _ x => x) (fun _ x => x) (h.iters it hm hv) })
 
 theorem wf_seg (s : ApiState) (h : WF s) (i : Nat) (e : Bool) : WF (step s (.seg i e)).1 := by
   simp only [step]
@@ -295,25 +394,63 @@ theorem wf_seg (s : ApiState) (h : WF s) (i : Nat) (e : Bool) : WF (step s (.seg
     | exact h
     | (rename_i hc; exact h.cons _ (by simp at hc; exact hc.1))
 
-
 theorem wf_lattice (s : ApiState) (h : WF s) (e : Bool) : WF (step s (.lattice e)).1 := by
   simp only [step]
   split
   · exact h
   · exact latticeStep_wf h e
 
-theorem wf_latBest (s : ApiState) (h : WF s) (e b : Bool) : WF (step s (.latBest e b)).1 := by
+theorem wf_latBest (s : ApiState) (h : WF s) (src : LatSrc) (e b : Bool) : WF (step s (.latBest src e b)).1 := by
   simp only [step]
   split
   · exact h
-  · exact latticeStep_wf h e
+  · exact latOf_wf h src e
+
+theorem wf_latTrav (s : ApiState) (h : WF s) (src : LatSrc) (e : Bool) : WF (step s (.latTrav src e)).1 := by
+  simp only [step]
+  split
+  · exact h
+  · exact latOf_wf h src e
+
+theorem wf_latPrune (s : ApiState) (h : WF s) (src : LatSrc) (e b : Bool) : WF (step s (.latPrune src e b)).1 := by
+  simp only [step]
+  split
+  · exact h
+  · have hw := latOf_wf h src e
+    split
+    · rename_i o ho
+      split
+      · refine { dead := hw.dead, noSearch := hw.noSearch, activeIff := hw.activeIff, inUtt := hw.inUtt,
+                 dagFresh := hw.dagFresh, alFresh := hw.alFresh, iters := ?_ }
+        refine iters_of_invalidate hw
+          (p := pruneDrop ((latOf s src e).1.dag && (latOf s src e).1.dagId == o) o) rfl ?_
+        intro k hp hl
+        exact live_congr k rfl rfl rfl rfl (fun _ x => x) (fun _ x => x) hl
+      · exact hw
+    · exact hw
+
+theorem wf_lnode (s : ApiState) (h : WF s) (i : Nat) (src : LatSrc) (e ei : Bool) :
+    WF (step s (.lnode i src e ei)).1 := by
+  simp only [step]
+  split
+  · exact h
+  · have hw := latOf_wf h src e
+    split
+    · rename_i o ho
+      split
+      · exact hw.cons _ (latOf_live src e ho)
+      · exact hw
+    · exact hw
 
 theorem wf_latRetain (s : ApiState) (h : WF s) (k : Nat) (e : Bool) : WF (step s (.latRetain k e)).1 := by
   simp only [step]
   (repeat' split) <;> first
     | exact h
     | exact latticeStep_wf h e
-    | exact (latticeStep_wf h e).congr rfl rfl rfl rfl rfl rfl rfl rfl rfl rfl rfl rfl (fun _ hk => hk)
+    | exact (latticeStep_wf h e).congr rfl rfl rfl rfl rfl rfl rfl rfl rfl rfl rfl rfl (fun _ hk => hk) rfl
+        (fun o ho => by
+          simp only [holds, List.any_cons, Bool.or_eq_true] at ho ⊢
+          exact .inr ho)
 
 theorem wf_nbest (s : ApiState) (h : WF s) (i : Nat) (e b : Bool) : WF (step s (.nbest i e b)).1 := by
   simp only [step]
@@ -337,7 +474,7 @@ theorem wf_alRetain (s : ApiState) (h : WF s) (k : Nat) (ru r a : Bool) : WF (st
     | exact h
     | exact alignStep_wf h ru r a
     | exact (alignStep_wf h ru r a).congr rfl rfl rfl rfl rfl rfl rfl rfl rfl rfl rfl rfl
-        (fun _ hk => List.mem_cons_of_mem _ hk)
+        (fun _ hk => List.mem_cons_of_mem _ hk) rfl (fun _ x => x)
 
 theorem wf_alIterDec (s : ApiState) (h : WF s) (i : Nat) (ru r a e : Bool) :
     WF (step s (.alIter i .dec ru r a e)).1 := by
@@ -350,18 +487,14 @@ theorem wf_alIterDec (s : ApiState) (h : WF s) (i : Nat) (ru r a e : Bool) :
        have : (alignStep s ru r a).2 = true := by simp at hc; exact hc.1
        exact alignStep_ok ru r a this)
 
-theorem WF.setJson {s : ApiState} (h : WF s) (h0 : s.refs ≠ 0) : WF { s with json := true } :=
-  { dead := fun hr => absurd hr h0, noSearch := h.noSearch, activeIff := h.activeIff, inUtt := h.inUtt,
-    dagFresh := h.dagFresh, alFresh := h.alFresh, iters := h.iters }
-
 theorem wf_json (s : ApiState) (h : WF s) (l : Nat) (ru r a : Bool) : WF (step s (.json l ru r a)).1 := by
   simp only [step]
   (repeat' split) <;> first
     | exact h
     | exact alignStep_wf h ru r a
-    | (rename_i h0 _; exact h.setJson h0)
+    | (rename_i h0 _; exact h.setFlags h0 s.mllr s.logfh true)
     | (rename_i h0 _ _
-       exact (alignStep_wf h ru r a).setJson (by rw [(alignStep_same s ru r a).1]; exact h0))
+       exact (alignStep_wf h ru r a).setFlags (by rw [(alignStep_same s ru r a).1]; exact h0) _ _ true)
 
 theorem wf_addWord (s : ApiState) (h : WF s) (u o : Bool) : WF (step s (.addWord u o)).1 := by
   simp only [step]
@@ -382,10 +515,13 @@ theorem wf_setGrammar (s : ApiState) (h : WF s) (g : Bool) : WF (step s (.setGra
        refine { dead := fun hr => absurd hr h0, noSearch := fun hn => (by cases hn),
                 activeIff := ⟨fun hx => (by cases hx), fun hx => absurd hx hu⟩,
                 inUtt := fun hx => absurd hx hu, dagFresh := fun hx => (by cases hx), alFresh := h.alFresh, iters := ?_ }
-       refine iters_of_invalidate h (p := isResultKind) rfl ?_
+       refine iters_of_invalidate h (p := resultDrop s.dagId s.lats) rfl ?_
        intro k hp hl
-       cases k <;> simp_all [live, isResultKind])
-
+       cases k <;> simp_all [live, resultDrop, dagDrop, isSegS]
+       all_goals
+         rcases hl with ⟨_, h2⟩ | h2
+         · subst h2; first | exact hp rfl | exact .inr (hp rfl)
+         · first | exact h2 | exact .inr h2)
 
 theorem wf_drop {s : ApiState} (h : WF s) : WF (dropDecoderOwned s) := by
   refine { dead := ?_, noSearch := ?_, activeIff := ?_, inUtt := ?_, dagFresh := ?_, alFresh := ?_, iters := ?_ }
@@ -397,30 +533,19 @@ theorem wf_drop {s : ApiState} (h : WF s) : WF (dropDecoderOwned s) := by
   · simp [dropDecoderOwned]
   · simp [dropDecoderOwned]
   · simp [dropDecoderOwned]
-  · refine iters_of_invalidate h (p := isDecoderKind) rfl ?_
+  · refine iters_of_invalidate h (p := decoderDrop s.dagId s.lats) rfl ?_
     intro k hp hl
-    cases k <;> simp_all [live, isDecoderKind, dropDecoderOwned]
+    cases k <;> simp_all [live, decoderDrop, dagDrop, dropDecoderOwned]
+    all_goals
+      rcases hl with ⟨_, h2⟩ | h2
+      · subst h2; first | exact hp rfl | exact .inr (hp rfl)
+      · first | exact h2 | exact .inr h2
 
 theorem drop_facts (s : ApiState) : (dropDecoderOwned s).search = .none ∧ (dropDecoderOwned s).utt = .idle
     ∧ (dropDecoderOwned s).refs = s.refs := by simp [dropDecoderOwned]
 
-/-- changing the grammar keys of the configuration of a live decoder -/
-theorem wf_cfg {s : ApiState} (h : WF s) (h0 : s.refs ≠ 0) (j f : Gram) : WF { s with cfgJsgf := j, cfgFsg := f } :=
-  { dead := fun hr => absurd hr h0, noSearch := h.noSearch, activeIff := h.activeIff, inUtt := h.inUtt,
-    dagFresh := h.dagFresh, alFresh := h.alFresh, iters := h.iters }
-
-theorem wf_setCfg {s : ApiState} (h : WF s) (h0 : s.refs ≠ 0) (j : Bool) (g : Gram) : WF (setCfg s j g) := by
-  unfold setCfg
-  split
-  · exact wf_cfg h h0 g s.cfgFsg
-  · exact wf_cfg h h0 s.cfgJsgf g
-
-theorem setCfg_facts (s : ApiState) (j : Bool) (g : Gram) : (setCfg s j g).search = s.search ∧ (setCfg s j g).utt = s.utt
-    ∧ (setCfg s j g).refs = s.refs := by
-  unfold setCfg; split <;> simp
-
-theorem wf_loadGrammar {s : ApiState} (h : WF s) (h0 : s.refs ≠ 0) (hs : s.search = .none) (hu : s.utt = .idle) :
-    WF (loadGrammar s).1 := by
+theorem wf_loadGrammar {s : ApiState} (h : WF s) (h0 : s.refs ≠ 0) (hs : s.search = .none) (hu : s.utt = .idle)
+    (g : Gram) : WF (loadGrammar s g).1 := by
   unfold loadGrammar
   split
   · exact h
@@ -431,7 +556,7 @@ theorem wf_loadGrammar {s : ApiState} (h : WF s) (h0 : s.refs ≠ 0) (hs : s.sea
     cases hk : it.kind <;> simp_all [live]
   · exact h
 
-theorem wf_reinit (s : ApiState) (h : WF s) (c : Option (Bool × Gram)) : WF (step s (.reinit c)).1 := by
+theorem wf_reinit (s : ApiState) (h : WF s) (g : Gram) : WF (step s (.reinit g)).1 := by
   simp only [step]
   split
   · exact h
@@ -440,17 +565,9 @@ theorem wf_reinit (s : ApiState) (h : WF s) (c : Option (Bool × Gram)) : WF (st
     · exact h
     · have hd := wf_drop h
       obtain ⟨d1, d2, d3⟩ := drop_facts s
-      have hd0 : (dropDecoderOwned s).refs ≠ 0 := by rw [d3]; exact h0
-      cases c with
-      | none => exact wf_loadGrammar hd hd0 d1 d2
-      | some jg =>
-        obtain ⟨j, g⟩ := jg
-        have h1 := wf_cfg hd hd0 .none .none
-        have h2 := wf_setCfg h1 hd0 j g
-        obtain ⟨f1, f2, f3⟩ := setCfg_facts { dropDecoderOwned s with cfgJsgf := .none, cfgFsg := .none } j g
-        exact wf_loadGrammar h2 (by rw [f3]; exact hd0) (by rw [f1]; exact d1) (by rw [f2]; exact d2)
+      exact wf_loadGrammar hd (by rw [d3]; exact h0) d1 d2 g
 
-theorem wf_init (s : ApiState) (h : WF s) (j : Bool) (g : Gram) (f : Bool) : WF (step s (.init j g f)).1 := by
+theorem wf_init (s : ApiState) (h : WF s) (g : Gram) (f : Bool) : WF (step s (.init g f)).1 := by
   simp only [step]
   split
   · exact h
@@ -458,7 +575,7 @@ theorem wf_init (s : ApiState) (h : WF s) (j : Bool) (g : Gram) (f : Bool) : WF 
     have h0' : s.refs = 0 := by simpa using h0
     split
     · exact h
-    · have hs0 : WF ({ iters := s.iters, lats := s.lats, alns := s.alns, refs := 1 } : ApiState) := by
+    · have hs0 : WF ({ iters := s.iters, lats := s.lats, alns := s.alns, refs := 1, nextObj := s.nextObj } : ApiState) := by
         refine { dead := fun hr => (by cases hr), noSearch := fun _ => ⟨rfl, by simp⟩, activeIff := by simp,
                  inUtt := fun hx => (by cases hx), dagFresh := fun hx => (by cases hx),
                  alFresh := fun hx => (by cases hx), iters := ?_ }
@@ -467,27 +584,26 @@ theorem wf_init (s : ApiState) (h : WF s) (j : Bool) (g : Gram) (f : Bool) : WF 
         have hd := h.dead h0'
         have hn := h.noSearch hd.1
         cases hk : it.kind <;> simp_all [live]
-      have h1 := wf_setCfg hs0 (by simp) j g
-      obtain ⟨f1, f2, f3⟩ := setCfg_facts ({ iters := s.iters, lats := s.lats, alns := s.alns, refs := 1 } : ApiState) j g
-      have h2 := wf_loadGrammar h1 (by rw [f3]; simp) (by rw [f1]) (by rw [f2])
+      have h2 := wf_loadGrammar hs0 (by simp) rfl rfl g
       split
       · rename_i s2 heq
-        have : (loadGrammar (setCfg { iters := s.iters, lats := s.lats, alns := s.alns, refs := 1 } j g)).1 = s2 := by
+        have : (loadGrammar { iters := s.iters, lats := s.lats, alns := s.alns, refs := 1, nextObj := s.nextObj } g).1 = s2 := by
           rw [heq]
         rw [← this]; exact h2
       · exact h
 
-
 /-- **`WF` is an invariant of the automaton**, for every call in every state -/
 theorem wf_step (s : ApiState) (c : Call) (h : WF s) : WF (step s c).1 := by
   cases c with
-  | init j g f => exact wf_init s h j g f
-  | reinit n => exact wf_reinit s h n
+  | init g f => exact wf_init s h g f
+  | reinit g => exact wf_reinit s h g
+  | reinitFeat => exact wf_simple s h _ (.inr (.inr (.inr (.inr (.inr (.inr (.inr (.inr (.inr (.inr rfl))))))))))
   | retain => exact wf_retain s h
   | free => exact wf_free s h
+  | logfile a => exact wf_logfile s h a
+  | mllrApply g => exact wf_mllrApply s h g
+  | touch => exact wf_simple s h _ (.inr (.inl rfl))
   | freeNull => exact wf_simple s h _ (.inl rfl)
-  | cfgGram j g => exact wf_cfgGram s h j g
-  | cfgOther k => exact wf_simple s h _ (.inr (.inl ⟨k, rfl⟩))
   | start => exact wf_start s h
   | proc f a => exact wf_proc s h f a
   | endUtt a => exact wf_endUtt s h a
@@ -498,7 +614,7 @@ theorem wf_step (s : ApiState) (c : Call) (h : WF s) : WF (step s c).1 := by
   | getCmn => exact wf_simple s h _ (.inr (.inr (.inr (.inr (.inr (.inr (.inl rfl)))))))
   | setCmn => exact wf_simple s h _ (.inr (.inr (.inr (.inr (.inr (.inr (.inr (.inl rfl))))))))
   | lookup f => exact wf_simple s h _ (.inr (.inr (.inr (.inr (.inr (.inr (.inr (.inr (.inl ⟨f, rfl⟩)))))))))
-  | latWalk k => exact wf_simple s h _ (.inr (.inr (.inr (.inr (.inr (.inr (.inr (.inr (.inr ⟨k, rfl⟩)))))))))
+  | latWalk k => exact wf_simple s h _ (.inr (.inr (.inr (.inr (.inr (.inr (.inr (.inr (.inr (.inl ⟨k, rfl⟩))))))))))
   | seg i e => exact wf_seg s h i e
   | segNext i l => exact wf_removers s h _ (.inr (.inr (.inr (.inl ⟨i, l, rfl⟩))))
   | segFree i => exact wf_removers s h _ (.inl ⟨i, rfl⟩)
@@ -507,9 +623,17 @@ theorem wf_step (s : ApiState) (c : Call) (h : WF s) : WF (step s c).1 := by
   | hypFree i => exact wf_removers s h _ (.inr (.inl ⟨i, rfl⟩))
   | hypSeg d i e => exact wf_hypSeg s h d i e
   | lattice e => exact wf_lattice s h e
-  | latBest e b => exact wf_latBest s h e b
+  | latBest src e b => exact wf_latBest s h src e b
+  | latPrune src e b => exact wf_latPrune s h src e b
+  | latTrav src e => exact wf_latTrav s h src e
   | latRetain k e => exact wf_latRetain s h k e
   | latFree k => exact wf_latFree s h k
+  | lnode i src e ei => exact wf_lnode s h i src e ei
+  | lnodeNext i l => exact wf_removers s h _ (.inr (.inr (.inr (.inr (.inr (.inr (.inr (.inr (.inr (.inl ⟨i, l, rfl⟩))))))))))
+  | lnodeFree i => exact wf_removers s h _ (.inr (.inr (.inr (.inr (.inr (.inr (.inr (.inl ⟨i, rfl⟩))))))))
+  | llink d i e => exact wf_llink s h d i e
+  | llinkNext i l => exact wf_removers s h _ (.inr (.inr (.inr (.inr (.inr (.inr (.inr (.inr (.inr (.inr ⟨i, l, rfl⟩))))))))))
+  | llinkFree i => exact wf_removers s h _ (.inr (.inr (.inr (.inr (.inr (.inr (.inr (.inr (.inl ⟨i, rfl⟩)))))))))
   | align ru r a => exact wf_align s h ru r a
   | alRetain k ru r a => exact wf_alRetain s h k ru r a
   | alFree k => exact wf_alFree s h k
@@ -519,7 +643,7 @@ theorem wf_step (s : ApiState) (c : Call) (h : WF s) : WF (step s c).1 := by
     | user k => exact wf_alIterUser s h i k ru r a e
   | aliNext i l => exact wf_removers s h _ (.inr (.inr (.inr (.inr (.inr (.inl ⟨i, l, rfl⟩))))))
   | aliChild d i e => exact wf_aliChild s h d i e
-  | aliGoto i g => exact wf_removers s h _ (.inr (.inr (.inr (.inr (.inr (.inr ⟨i, g, rfl⟩))))))
+  | aliGoto i g => exact wf_removers s h _ (.inr (.inr (.inr (.inr (.inr (.inr (.inl ⟨i, g, rfl⟩)))))))
   | aliFree i => exact wf_removers s h _ (.inr (.inr (.inl ⟨i, rfl⟩)))
   | json l ru r a => exact wf_json s h l ru r a
   | addWord u o => exact wf_addWord s h u o
